@@ -39,7 +39,10 @@ theorem tie_tryAppend : Gen.BeaconNode.tryAppendSteps = tryAppendSteps := rfl
 theorem tie_broadcastNextPartial : Gen.BeaconNode.broadcastNextPartialSteps = broadcastNextPartialSteps := rfl
 theorem tie_aggregator : Gen.BeaconNode.aggregatorPartialSteps = aggregatorPartialSteps ∧
     Gen.BeaconNode.aggregatorStoredSteps = aggregatorStoredSteps := ⟨rfl, rfl⟩
-theorem tie_callbackPut : Gen.BeaconNode.callbackPutSteps = callbackPutSteps := rfl
+/-- `callbackStore.Put` is one of the two known texts (which one: `Gen.callbackOverflowEndsConsumer`, see C12R): in both the
+base `Put` comes first and what is handed to the callbacks is the beacon that was stored -/
+theorem tie_callbackPut : Gen.BeaconNode.callbackPutSteps = callbackPutSteps ∨
+    Gen.BeaconNode.callbackPutSteps = callbackPutStepsRepaired := by first | exact Or.inl rfl | exact Or.inr rfl
 theorem tie_publicRand : Gen.BeaconNode.publicRandSteps = publicRandSteps := rfl
 theorem tie_bootstrap : Gen.BeaconNode.bootstrapSteps = bootstrapSteps := rfl
 
